@@ -772,7 +772,7 @@ func genC16(o *vcoq.Out, r *vcoq.Rand, tier string) error {
 	o.CaseType = "c16case"
 	o.Judge = "judge"
 	o.Shard = 40
-	o.Rule = "pairs: a random TestAllTypes (60%) or trait message (PullBrightnessResponse, PullEnergyLevelResponse, ElectricMode) cloned twice, one clone mutated in 0-3 places (kinds in the mut:* tags), floats dyadic, each pair judged under the default comparer, two FloatValueApprox, two TimeValueWithin, two DurationValueWithin with tolerances below/at/above the injected difference, Equal of all three, Equal(ValueOr), And and Or of Equal comparers, three random combinator TREES (ValueAnd / ValueOr nested to depth 2-3 over leaves of different kinds, empty and non-applicable combinations included), on (x,y), (y,x), (x,x), (y,y); plus exhaustive grids: 23 fixed tree shapes x 27 messages differing in a double / timestamp / duration by less and more than the tolerances, nil / typed nil / 13 message types pairwise, 8x8 special floats, 9x9 floats on which float64 arithmetic rounds / overflows / is subnormal (18x18 in thorough), 11x11 negative and mixed-sign dyadic floats x 7 fraction/margin configurations (singular, list, float32 and map values), 18x18 extreme durations and 15x15 extreme timestamps incl. tolerance math.MaxInt64, pairs exactly MaxInt64 ns apart +-1, tolerances on map values and list elements only, maps of equal size with different keys, change_time inside / outside a Change and a Change at the top, negative tolerances, 22x22 unknown-field sequences, DurationValueWithinP on a 10x10x3 grid; streams: resource.Value with WithNoDuplicates or a tolerance equivalence, optional seed, 1-8 drifting writes, backpressured Pull (a fifth also through WithReadPaths over top-level fields incl. the empty mask, with writes that change only hidden fields); one-item and whole resource.Collections (up to 3 ids, add / update / delete / re-add, WithInclude(default_double >= threshold), WithUpdatesOnly, read masks, Change messages) with every delivered change. The guard computed by the generator is checked against the judge's (KG). Non-trivial: at least one mutation applied / grid pair / stream or collection with >= 2 writes. Distinct by the full case term."
+	o.Rule = "pairs: a random TestAllTypes (60%) or trait message (PullBrightnessResponse, PullEnergyLevelResponse, ElectricMode) cloned twice, one clone mutated in 0-3 places (kinds in the mut:* tags), floats dyadic, each pair judged under the default comparer, two FloatValueApprox, two TimeValueWithin, two DurationValueWithin with tolerances below/at/above the injected difference, Equal of all three, Equal(ValueOr), And and Or of Equal comparers, three random combinator TREES (ValueAnd / ValueOr nested to depth 2-3 over leaves of different kinds, empty and non-applicable combinations included), on (x,y), (y,x), (x,x), (y,y); plus exhaustive grids: 23 fixed tree shapes x 27 messages differing in a double / timestamp / duration by less and more than the tolerances, nil / typed nil / 13 message types pairwise, 8x8 special floats, 9x9 floats on which float64 arithmetic rounds / overflows / is subnormal (18x18 in thorough), 11x11 negative and mixed-sign dyadic floats x 7 fraction/margin configurations (singular, list, float32 and map values), 18x18 extreme durations and 15x15 extreme timestamps incl. tolerance math.MaxInt64, pairs exactly MaxInt64 ns apart +-1, tolerances on map values and list elements only, maps of equal size with different keys, change_time inside / outside a Change and a Change at the top, negative tolerances, 22x22 unknown-field sequences, DurationValueWithinP on a 10x10x3 grid; streams: resource.Value with WithNoDuplicates or a tolerance equivalence, optional seed, 1-8 drifting writes, backpressured Pull (a fifth also through WithReadPaths over top-level fields incl. the empty mask, with writes that change only hidden fields); one-item and whole resource.Collections (up to 3 ids, add / update / delete / re-add, WithInclude(default_double >= threshold), WithUpdatesOnly, read masks, Change messages) with every delivered change; whole Collections pulled WITHOUT backpressure by a reader that is behind during each phase (a plug write parks the subscription, a script with delete + re-add of seeded and unseeded ids with the same / an equivalent / a different value, update runs, add + delete piles up in the merge stage, a barrier write, drain; 1-4 phases, seeded or updates-only, optional include), every delivered change compared with the composition of the merge-stage model and the held-map loop and judged against what the subscriber holds. The guard computed by the generator is checked against the judge's (KG). Non-trivial: at least one mutation applied / grid pair / stream or collection with >= 2 writes. Distinct by the full case term."
 	g := &c16{o: o, r: r, g: &pairGen{r: r}, tier: tier}
 	scale := 1
 	if tier == "thorough" {
@@ -784,6 +784,7 @@ func genC16(o *vcoq.Out, r *vcoq.Rand, tier string) error {
 	g.randomPairs(300 * scale)
 	g.streams(200 * scale)
 	g.collections(100 * scale)
+	g.lossyCollections(80 * scale)
 	g.moreCorners()
 	g.masked(60 * scale)
 	return nil
